@@ -1,5 +1,5 @@
 (* C10 - WriteTo emits one complete frame and reports its size truthfully. *)
-From MQ Require Import Model.Render Model.Fill Proofs.BytesP Proofs.EncP Proofs.RenderP Proofs.TotalP Proofs.FillP.
+From MQ Require Import Model.Render Model.Fill Proofs.BytesP Proofs.EncP Proofs.RenderP Proofs.TotalP Proofs.FillP Model.StringIR Proofs.StringP gen.GenString gen.SyncString.
 From Coq Require Import Strings.String. From Coq Require Import List. Import ListNotations. Open Scope N_scope.
 
 (* the frame: first byte, remaining length, exactly that many bytes *)
@@ -141,3 +141,17 @@ Example C10_example :
   write_to KPubAck (run_calls KPubAck [SetPacketID 1]) (Short 3 (EReader 7))
   = Some {| w_n := 3; w_err := Some (EReader 7); w_calls := [[x40; x02; x00; x01]] |}.
 Proof. vm_compute. reflexivity. Qed.
+
+(* string_toks is the String method of the source for the fourteen packet
+   types whose String is `return [withForm(p, | withReason(p, ]
+   fmt.Sprintf(format, args...) [)]`: tools/gosync (acc.go) translates the
+   format string and each argument (first byte, flag renderings, fields,
+   accessors, the keep-alive duration, the size from the dry run, the reason
+   code's name, the filter text) into an item list; the regenerated lists are
+   those of Model/StringIR.v (gen/SyncString.v) and their interpretation is
+   string_toks (PUBLISH, which builds its topic text first, and Undefined
+   remain hand-modelled and fingerprinted). *)
+Theorem C10_string_is_the_source : forall k p, string_ir k <> None ->
+  run_string_of k p = string_toks k p.
+Proof. exact run_string_is_string_toks. Qed.
+Print Assumptions C10_string_is_the_source.
